@@ -375,8 +375,8 @@ the honest expectation for an unseen restructuring of an anchored function is
 "about even" - rounds 5 (46 of 80) and 6 (40 of 80) confirmed it; round 7 (31 of
 80) was better, round 8 (36 of 80, right after thirty new rules) and round 9 (40 of 80) were
 not; rounds 10 (32 of 80), 11 (16 of 40) and 12 (15 of 40) were better again: two in five. Of the 801
-kept refactorings (rounds 1-12) 774 are quiet today; 27 (two of round 6, five of round 8, five of round 9,
-four of round 10, five of round 11, six of round 12) still alarm and are documented as open in section 8.3. The mirror and
+kept refactorings (rounds 1-12) 775 are quiet today; 26 (two of round 6, five of round 8, five of round 9,
+four of round 10, five of round 11, five of round 12) still alarm and are documented as open in section 8.3. The mirror and
 lockstep rules would fire on an asymmetric-but-equivalent rewrite of one twin.
 Refactorings that rename exported API or change a struct's field *types* are
 outside the rename normalisation.
